@@ -50,6 +50,7 @@ FailsTask(r) ==
         \cup Unless(~r.bounds_raised /\ r.bounds_eq_own /\ Len(r.lbs) = D /\ Len(r.ubs) = D /\
                     \A k \in 1..D : defs[k].t = "perm" \/ (BoundsOKCoord(defs[k], r.lbs[k], r.ubs[k]) /\ r.lbs[k] <= r.ubs[k]), "C14.bounds")
         \cup Unless(r.empty_len = D /\ r.empty_in, "C14.random")
+        \cup Unless(r.correct_eq_own, "C14.correct")
         \cup Unless((r.pat = "nan" /\ r.correct_raised) \/
                     (/\ ~r.correct_raised /\ Len(r.y) = D
                      /\ \A k \in 1..D :
